@@ -18,6 +18,8 @@ type An struct {
 	F *FE
 	E *Effects
 	R *Report
+	// atomicMask: which origins of a failure AtomicScan pairs writes with (0: validation of the input)
+	atomicMask Origin
 }
 
 type propFn func(a *An)
